@@ -5,6 +5,7 @@ package main
 import (
 	"verifharness/internal/hk"
 	_ "verifharness/props/c10"
+	_ "verifharness/props/c12"
 	_ "verifharness/props/c19"
 	_ "verifharness/props/c20"
 )
